@@ -32,6 +32,47 @@ def _alarm(signum, frame):
 
 _PROP = None
 
+class _StrictHandler(__import__('logging').Handler):
+    """what an application that has DEBUG logging switched on does with every record: format it (so lazily formatted
+    arguments are rendered) - and, like logging.StreamHandler.emit for RecursionError, let what the formatting raises
+    propagate to the code that logged"""
+    def emit(self, record):
+        self.format(record)
+
+def _debug_logging_on():
+    import logging
+    root = logging.getLogger()
+    h = _StrictHandler()
+    st = (root.level, h, logging.root.manager.disable)
+    logging.disable(logging.NOTSET)
+    root.addHandler(h)
+    root.setLevel(logging.DEBUG)
+    return st
+
+def _debug_logging_off(st):
+    import logging
+    level, h, disabled = st
+    root = logging.getLogger()
+    root.removeHandler(h)
+    root.setLevel(level)
+    logging.disable(disabled)
+
+LOGGING_SHARE = 0.1                       # share of the cases that are run once more with DEBUG logging enabled for every logger:
+LOGGING_MAX = {'quick': 40, 'thorough': 400}   # logging configuration must not change any observable (the unchanged code logs nothing)
+
+def _with_debug_logging(prop, cases, rng, tier):
+    if getattr(prop, 'NO_LOGGING_CASES', False):
+        return []
+    pool = [c for c in cases if isinstance(c, dict)]
+    n = min(LOGGING_MAX.get(tier, 40), int(len(pool) * LOGGING_SHARE) + 1, len(pool))
+    out = []
+    for c in rng.sample(pool, n):
+        c2 = json.loads(json.dumps(c))
+        c2['debug_logging'] = True
+        c2['origin'] = '%s+debug-logging' % c.get('origin', 'gen')
+        out.append(c2)
+    return out
+
 def _impl_one(case, scale=1):
     prop = _PROP
     t = getattr(prop, 'CASE_TIMEOUT', 10) * scale
@@ -39,11 +80,14 @@ def _impl_one(case, scale=1):
     signal.setitimer(signal.ITIMER_REAL, t)
     try:
         lim = sys.getrecursionlimit()
+        dbg = _debug_logging_on() if isinstance(case, dict) and case.get('debug_logging') else None
         try:
             return prop.impl(case)
         finally:
             signal.setitimer(signal.ITIMER_REAL, 0)
             sys.setrecursionlimit(lim)
+            if dbg:
+                _debug_logging_off(dbg)
     except CaseTimeout:
         return ['harness-timeout']
     except RecursionError:
@@ -321,6 +365,8 @@ def _run_check(prop, tier, seed, replay, t0, violations, known_lines):
     for c in gen:
         c.setdefault('origin', 'gen')
         cases.append(c)
+    lrng = random.Random('%s-%s-%s-logging' % (pid, seed, tier))     # its own stream: the other cases stay what they were
+    cases += _with_debug_logging(prop, cases, lrng, tier)
     for i, c in enumerate(cases):
         c['id'] = i
     log('[%s] %d cases (%d corpus)' % (pid, len(cases), ncorpus))
